@@ -14,14 +14,15 @@ import (
 
 // FC is the lowered model of a transpiler package (fc, build_sample_md).
 type FC struct {
-	M       *core.Module
-	Prog    *ir.Program
-	N       *ir.Normalizer
-	Path    string
-	nf      map[string]string
-	attr    []attributed
-	tiny    map[string]tinyDef
-	tinyTpl map[string]tinyDef
+	M         *core.Module
+	Prog      *ir.Program
+	N         *ir.Normalizer
+	Path      string
+	nf        map[string]string
+	attr      []attributed
+	tiny      map[string]tinyDef
+	tinyTpl   map[string]tinyDef
+	tinyUnary map[string]string
 }
 
 var fcCache = map[string]*FC{}
